@@ -1174,6 +1174,20 @@ func vC19OverlongReplay(tr *vC19Trace) {
 
 func vC19HistoryCase(tr *vC19Trace, r *rand.Rand) {
 	b := vC19GenCacheArgs(r)
+	// one history in ten: client_networks also names one client of the history by its bare host address (no
+	// prefix length) — a form ecs.Build refuses, so the whole [ecs] block is invalid for EVERY layer built
+	// from it: nothing is forwarded, no answer is scoped.  Both layers must read the list the same way.
+	var bareHost net.IP
+	if b.enabled && r.Intn(10) == 0 {
+		if r.Intn(3) == 0 {
+			bareHost = make(net.IP, 16)
+			r.Read(bareHost)
+			bareHost[0], bareHost[1] = 0x20, 0x01
+		} else {
+			bareHost = vC19V4(1+r.Intn(222), r.Intn(256), r.Intn(256), 1+r.Intn(254))
+		}
+		b.nets = append(append([]string(nil), b.nets...), bareHost.String())
+	}
 	ecsMax := []time.Duration{0, 30 * time.Second, 300 * time.Second, 7200 * time.Second, 2 * time.Second}[r.Intn(5)]
 	prefetch := r.Intn(3) != 0
 	// referrals are kept for 5 s whatever their TTL says: histories with one are short-lived too
@@ -1181,6 +1195,9 @@ func vC19HistoryCase(tr *vC19Trace, r *rand.Rand) {
 	shortLived := (ecsMax > 0 && ecsMax < 5*time.Second) || withReferrals
 	vC19ExecHistory(tr, b, ecsMax, prefetch, shortLived, func(pol *ecs.Policy, floors [2]int) []vC19Planned {
 		clients := vC19GenClients(r, b)
+		if bareHost != nil {
+			clients[0].remote = bareHost
+		}
 		nops := 5 + r.Intn(9)
 		if shortLived {
 			nops = 3 + r.Intn(3)
